@@ -33,6 +33,7 @@ type Opt struct {
 	Capture      int // percentage: the context is captured by a server that the client splits and uses twice
 	CutFwd       int // percentage of tail calls spelt  x <- new f(...); fwd self x
 	Ctor         int // percentage of producers built by a constructor function (0 = 25)
+	Alpha        int // percentage of bound names spelt with random initial letters (a..z) instead of the fixed prefixes
 }
 
 func DefaultOpt(r *rand.Rand) Opt {
@@ -119,6 +120,14 @@ func tryGenerate(r *rand.Rand, o Opt) (p *Program, ok bool) {
 func (g *G) coin(pct int) bool { return g.R.Intn(100) < pct }
 func (g *G) fresh(p string) string {
 	g.nName++
+	if g.O.Alpha > 0 && p != "v" && g.coin(g.O.Alpha) {
+		// names over the whole alphabet (a digit keeps them clear of every keyword)
+		const az = "abcdefghijklmnopqrstuvwxyz"
+		p = string(az[g.R.Intn(26)])
+		if g.coin(50) {
+			p += string(az[g.R.Intn(26)])
+		}
+	}
 	return fmt.Sprintf("%s%d", p, g.nName)
 }
 // scope runs f with a fresh name counter: names are unique within one function or process
